@@ -68,7 +68,10 @@ pub fn probe(r: &mut Runner) {
             if j != v && vb.len() > va.len() && vb.starts_with(va.as_str()) {
                 let suffix = &vb[va.len()..];
                 for t in r.w.trading_accounts() {
-                    traders.push(format!("{}{}", suffix, t));
+                    let sh = format!("{}{}", suffix, t);
+                    if !traders.contains(&sh) {
+                        traders.push(sh);
+                    }
                 }
             }
         }
